@@ -419,9 +419,10 @@ def mutate(rng, n_actions=None, only=None, threads=False):  # noqa
     """(scenario, mutator_name, owner, description) for a fresh conformant scenario with one fault."""
     names = sorted(MUTATORS) if only is None else [m for m in sorted(MUTATORS) if MUTATORS[m][0] in only or m in only]
     for _ in range(80):
-        b = S.Builder(rng, n_actions or rng.choice([3, 4, 5, 6, 8]), threads)
-        s = b.build()
+        s, b = S.gen_valid(rng, n_actions or rng.choice([3, 4, 5, 6, 8]), threads, builder=True)
         name = rng.choice(names)
+        if name in THREAD_ONLY and not s["groups"]:
+            s, b = S.gen_valid(rng, n_actions or rng.choice([3, 4, 5, 6]), True, builder=True)
         owner, f = MUTATORS[name]
         desc = f(rng, s, b)
         if desc is not None:
@@ -444,3 +445,153 @@ def duplicate_composite(rng, s, b):
 
 
 FORCE_ID_SPELLING = {"identical_operands", "duplicate_composite"}
+
+
+# ------------------------------------------------------------------------------------------------ C05 (thread scoping)
+def _threaded_actions(s):
+    return [a for a in s["actions"] if a["ctx"] is not None]
+
+
+def _chain(s, gid):
+    out = []
+    while gid is not None:
+        out.append(gid)
+        g = next((x for x in s["groups"] if x["id"] == gid), None)
+        gid = g["ctx"][1] if g and g["ctx"] else None
+    return out
+
+
+@mutator("C05")
+def threaded_checkpoint_used_outside(rng, s, b):
+    """An action outside a thread group (or in a sibling group) depends on a checkpoint bound to that group."""
+    cps = [c for c in s["checkpoints"] if c["ctx"] is not None]
+    if not cps:
+        return None
+    c = rng.choice(cps)
+    outsiders = [a for a in s["actions"] if a["ctx"] is None or c["ctx"][1] not in _chain(s, a["ctx"][1])]
+    if not outsiders:
+        return None
+    a = rng.choice(outsiders)
+    a["dep"] = ("checkpoint", c["id"])
+    return "checkpoint bound to a thread group depended on from outside it"
+
+
+@mutator("C05")
+def threaded_action_compared_outside(rng, s, b):
+    ta = _threaded_actions(s)
+    cps = [c for c in s["checkpoints"] if c["ctx"] is None]
+    if not ta or not cps:
+        return None
+    a, c = rng.choice(ta), rng.choice(cps)
+    add_dep(rng, c, b.make_cmp(a["id"])[0])
+    return "threaded action compared by a checkpoint outside its thread group"
+
+
+@mutator("C05")
+def variable_used_outside(rng, s, b):
+    if not s["groups"]:
+        return None
+    g = rng.choice(s["groups"])
+    cps = [c for c in s["checkpoints"] if c["ctx"] is None or g["id"] not in _chain(s, c["ctx"][1])]
+    if not cps:
+        return None
+    c = rng.choice(cps)
+    add_dep(rng, c, ("cmp", ("var", g["id"], []), "EQUALS", ("lit", "SNull", b.fresh())))
+    return "thread variable used by a checkpoint outside its thread group"
+
+
+@mutator("C05")
+def spawn_from_non_list(rng, s, b):
+    gs = [g for g in s["groups"] if g["src"][0] == "P"]
+    if not gs:
+        return None
+    g = rng.choice(gs)
+    pr = next(p for p in s["promises"] if p["id"] == g["src"][1][1])
+    scal = [(p, t) for (p, t, _) in b.paths_from(pr["type"][1]) if not t.endswith("_LIST")]
+    if pr["ctx"] is not None or not scal:
+        return None
+    g["src"] = ("P", g["src"][1], list(rng.choice(scal)[0]))
+    return "thread group spawned from a non-list source"
+
+
+@mutator("C05")
+def spawn_not_fulfilled_by_ancestor(rng, s, b):
+    gs = [g for g in s["groups"] if g["ctx"] is None and g["src"][0] == "P"]
+    rng.shuffle(gs)
+    for g in gs:
+        cp = next(c for c in s["checkpoints"] if c["id"] == g["dep"][1])
+        mentioned = set()
+        for d in cp["deps"]:
+            if d[0] == "cmp":
+                for o in (d[1], d[3]):
+                    if o[0] == "act":
+                        mentioned |= {o[1][1]} | b.anc.get(o[1][1], set())
+        cands = [p for p in s["promises"] if p["ctx"] is None and b.creator.get(p["id"]) not in mentioned and b.list_paths(p["type"][1])]
+        if not cands:
+            continue
+        p = rng.choice(cands)
+        path = rng.choice(b.list_paths(p["type"][1]))[0]
+        # keep the nested groups' variable paths meaningful: only retarget groups nobody spawns from
+        if any(h["src"][0] == "V" and h["src"][1] == g["id"] for h in s["groups"]):
+            continue
+        if any(d[0] == "cmp" and any(o[0] == "var" and o[1] == g["id"] for o in (d[1], d[3])) for c in s["checkpoints"] for d in c["deps"]):
+            continue
+        g["src"] = ("P", ("promise", p["id"]), list(path))
+        return "spawn source fulfilled by an action that is no ancestor of the thread group"
+    return None
+
+
+@mutator("C05")
+def unused_thread_group(rng, s, b):
+    gs = [g for g in s["groups"] if g["ctx"] is None]
+    if not gs:
+        return None
+    g = dict(rng.choice(gs))
+    g["id"] = max(x["id"] for x in s["groups"]) + 1
+    g["name"] = 600 + g["id"]
+    g["var"] = 90 + rng.randrange(9)
+    s["groups"].append(g)
+    return "thread group used by no action and no nested group"
+
+
+@mutator("C05")
+def variable_name_repeats_in_chain(rng, s, b):
+    nested = [g for g in s["groups"] if g["ctx"] is not None]
+    if not nested:
+        return None
+    h = rng.choice(nested)
+    parent = next(g for g in s["groups"] if g["id"] == h["ctx"][1])
+    h["var"] = parent["var"]
+    return "nested thread group reuses the variable name of its enclosing group"
+
+
+@mutator("C06")
+def promise_context_mismatch(rng, s, b):
+    if not s["groups"]:
+        return None
+    p = rng.choice(s["promises"])
+    g = rng.choice(s["groups"])
+    cur = p["ctx"]
+    new = None if (cur is not None and rng.random() < 0.5) else ("group", g["id"])
+    if new == cur:
+        return None
+    p["ctx"] = new
+    return "promise context differs from the context of its fulfilling action"
+
+
+@mutator("C06")
+def edit_outside_fulfilment_context(rng, s, b):
+    """An editing action whose context differs from the context in which the promise is fulfilled."""
+    eds = [a for a in s["actions"] if b.creator.get(a["promise"][1]) != a["id"]]
+    if not eds or not s["groups"]:
+        return None
+    a = rng.choice(eds)
+    cands = [None] + [("group", g["id"]) for g in s["groups"]]
+    cands = [c for c in cands if c != a["ctx"]]
+    a["ctx"] = rng.choice(cands)
+    return "edit outside the context in which the promise is fulfilled"
+
+
+THREAD_ONLY = {"threaded_checkpoint_used_outside", "threaded_action_compared_outside", "variable_used_outside",
+               "spawn_from_non_list", "spawn_not_fulfilled_by_ancestor", "unused_thread_group",
+               "variable_name_repeats_in_chain", "promise_context_mismatch", "edit_outside_fulfilment_context"}
